@@ -759,6 +759,7 @@ func (x *Ctx) dropIn(fn string, s, t []byte, r int64, lower bool) {
 func init() {
 	props["C16"] = func(x *Ctx) {
 		n := 12000 * x.scale
+		ratioCases(false, func(s, t []byte) { x.recaseInvariant(s, t) })
 		for i := 0; i < n; i++ {
 			s, t := x.g.pair(streamValid)
 			x.recaseInvariant(s, t)
@@ -804,6 +805,7 @@ func init() {
 	}
 	props["C17"] = func(x *Ctx) {
 		n := 10000 * x.scale
+		ratioCases(true, func(s, t []byte) { x.selfConsistent(s, t) })
 		for i := 0; i < n; i++ {
 			st := streamValid
 			if i%2 == 1 {
@@ -826,6 +828,15 @@ func init() {
 	}
 	props["C19"] = func(x *Ctx) {
 		n := 15000 * x.scale
+		k := 0
+		ratioCases(false, func(s, t []byte) {
+			k++
+			if k%4 != 0 { // a quarter of the sweep, each embedded with and without context
+				return
+			}
+			x.embedding(nil, s, []byte("!"), t)
+			x.embedding([]byte("xx"), s, []byte("zzzzzzzzzzzzz"), t)
+		})
 		for i := 0; i < n; i++ {
 			s, t := x.g.pair(streamValid)
 			xs, y := x.g.pad(streamValid), x.g.pad(streamValid)
